@@ -10,6 +10,7 @@ from hypothesis import strategies as st
 
 from harness.core import Discrepancy, Outcome
 from harness.odutil import build_od
+from harness.refcodec import crc16_xmodem
 from harness.refsdo import RefSdoServer
 from harness.simbus import Frame, Hub
 
@@ -148,6 +149,12 @@ def run_case(case) -> Outcome:
         kind = f"fault-{fault['kind']}/" + ("asserted" if detectable else "informational")
         if exc is None:
             kind += "/returned"
+            if bytes(got) != data and crc and fault["kind"] != "crc" and \
+                    crc16_xmodem(bytes(got)) == crc16_xmodem(data):
+                # e.g. a trailing zero byte dropped by a wrong unused-byte count: CRC-16/XMODEM (initial
+                # value 0) is blind to it, so no client can notice
+                return Outcome(excluded="the corrupted stream has the same CRC-16 as the value "
+                                        "(undetectable by any client)")
             if bytes(got) != data and detectable:
                 D.append(Discrepancy(f"C13/fault/{fault['kind']}/wrong-data-returned",
                                      f"{where}: returned {bytes(got)[:20].hex()}({len(got)}B) instead of "
